@@ -331,6 +331,44 @@ func runC18(p *Prog, l *Ledger) {
 					return strip(r.X, false) == strip(st.Val, false) && isF && sameField(fr, *valF)
 				})
 			}
+			// the path compared the field as it is after its last store with the field as it was before its first store
+			// (previous := m.value; ...; if m.value != previous) and found them equal: nothing changed on this path
+			if len(stores) > 0 {
+				pos := map[ssa.Instruction]int{}
+				k := 0
+				pa.Each(func(step int, ins ssa.Instruction) bool {
+					k++
+					if _, seen := pos[ins]; !seen {
+						pos[ins] = k
+					}
+					return true
+				})
+				first, last := pos[stores[0]], pos[stores[0]]
+				for _, st := range stores {
+					if pos[st] < first {
+						first = pos[st]
+					}
+					if pos[st] > last {
+						last = pos[st]
+					}
+				}
+				unchanged := pa.HoldsRel(-1, func(r Rel) bool {
+					if r.Op != token.EQL {
+						return false
+					}
+					x, y := strip(r.X, false), strip(r.Y, false)
+					fx, _, okx := loadedField(x)
+					fy, _, oky := loadedField(y)
+					if !okx || !oky || !sameField(fx, *valF) || !sameField(fy, *valF) {
+						return false
+					}
+					ix, iy := x.(ssa.Instruction), y.(ssa.Instruction)
+					return (pos[ix] > last && pos[iy] < first) || (pos[iy] > last && pos[ix] < first)
+				})
+				if unchanged {
+					return true
+				}
+			}
 			if b, isC := constBool(flag); isC {
 				if b {
 					return true
